@@ -296,18 +296,18 @@ func (g *Gen) zeroTerm(t types.Type) string {
 		case tt.Info()&types.IsString != 0:
 			return "emptyseq"
 		case tt.Kind() == types.UnsafePointer:
-			return "nilloc"
+			return "(mkloc 0 pnil)"
 		default:
 			return "0"
 		}
 	case *types.Pointer, *types.Map, *types.Chan:
-		return "nilloc"
+		return "(mkloc 0 pnil)"
 	case *types.Signature:
 		return "0"
 	case *types.Slice:
-		return "nilslice"
+		return "(mkslice (mkloc 0 pnil) 0 0 0)"
 	case *types.Interface:
-		return "nilif"
+		return "(mkiface 0 (mkloc 0 pnil))"
 	case *types.Struct:
 		dt := g.u.structDatatype(t)
 		if tt.NumFields() == 0 {
@@ -533,7 +533,11 @@ func (g *Gen) oblige(name, kind string, tags []string, guard, formula, desc stri
 	}
 	o.Query = sb.String()
 	g.obls = append(g.obls, o)
-	g.guardAssume(guard, formula)
+	// assert-then-assume, but only for obligations that the current property check
+	// reports: a failing obligation of another property must not mask a failure here.
+	if relevant(o, g.con, g.onlyProp) {
+		g.guardAssume(guard, formula)
+	}
 }
 
 // probe emits a vacuity probe: the context plus guard must be satisfiable.
